@@ -7,6 +7,8 @@ import (
 	"testing"
 	"time"
 
+	"pgregory.net/rapid"
+
 	"verif/harness/hx"
 )
 
@@ -57,3 +59,10 @@ func FuzzC06Sniff(f *testing.F) {
 		commonSniffChecks(t, data, "fuzz input")
 	})
 }
+
+// Coverage-guided search inside the generators' domains: the fuzzer's bytes drive the rapid generators, so every
+// input stays schema-valid / representable by construction and the oracle is the property itself (thorough tier).
+func FuzzC01RoundTrip(f *testing.F) { f.Fuzz(rapid.MakeFuzz(c01Property)) }
+func FuzzC02RoundTrip(f *testing.F) { f.Fuzz(rapid.MakeFuzz(c02Property)) }
+func FuzzC03Translate(f *testing.F) { f.Fuzz(rapid.MakeFuzz(c03Property)) }
+func FuzzC05Layout(f *testing.F)    { f.Fuzz(rapid.MakeFuzz(c05Property)) }
